@@ -6,6 +6,10 @@ Decomposition (DESIGN.md §5 C08; spec/spec_sample.h is written from rounding.tx
   nearest.* bilinear.* conv.* sepconv.*   bits_image_fetch_pixel_* with a recording get_pixel
   affine.* general.*   __bits_image_fetch_affine_no_alpha stepping, __bits_image_fetch_general quotient
   padbounds.*  pad_repeat_get_scanline_bounds
+  fastpath.*   specialised fetchers of pixman-fast-path.c: bits_image_fetch_{nearest,bilinear,separable_convolution}_affine through their
+               48 generated instances as _pixman_implementation_iter_init selects them from fast_iters[] (formats by spec_format.h),
+               r5g6b5 fetch / write-back iterators, bilinear cover iterator (harness fp_affine.c, fp_565.c, fp_cover.c)
+  conv.onehot.* convolution kernels up to 3x3 (4x4 thorough) with one-hot weights: window, tap order, matrix stride
 Jobs whose name starts with `finding.` hold obligations that FAIL on the pinned tree (own job each)."""
 import os
 from vdriver import Job
@@ -82,6 +86,18 @@ def fetch_jobs(tier):
                               domain="every 16.16 (x,y), every image size, every coefficient in [-4,4], ghost image (%d free points + default), channel %d" % (max(cw, cht), ch),
                               timeout=1800, min_props=3,
                               assumptions=[A_POS, A_SIZE, A_COEF, A_NONNEG, A_KPARAM] + ([A_REPMODEL] if rep in (1, 3) else [])))
+    # (b-sample2) kernels larger than 1x1 with ONE-HOT weights (tap symbolic, weight 1.0): window alignment, tap order and the
+    # stride of the kernel matrix, no symbolic product -> 4-20 s each
+    oh = [(2, 2, 2), (2, 1, 3), (1, 2, 0), (3, 3, 1)] if not th else [(cw, cht, rep) for (cw, cht) in ((2, 1), (1, 2), (2, 2), (3, 2), (3, 3), (4, 4))
+                                                                        for rep in (0, 1, 2, 3)]
+    for (cw, cht, rep) in oh:
+        d = dict(rep_defs(rep), VC_FILTER=2, VC_ONEHOT=1, VC_NG=1, VC_CW=cw, VC_CHT=cht)
+        js.append(Job("conv.onehot.%dx%d.%s" % (cw, cht, REPN[rep]), "C08/fetch.c", defines=d, cbmc_flags=SAFE, unwind=max(cw, cht) + 1,
+                      kind="bounded", bound="kernel %dx%d (tap loops fully unrolled), one-hot weights" % (cw, cht),
+                      functions=["bits_image_fetch_pixel_convolution", "accum_32", "reduce_32", "fetch_pixel_no_alpha_32"],
+                      domain="every 16.16 (x,y), every image size, every tap position, ghost image (1 free point + default), all four channels",
+                      timeout=900, min_props=3,
+                      assumptions=[A_POS, A_SIZE, A_KPARAM] + ([A_REPMODEL] if rep in (1, 3) else [])))
     seps = [(1, 1, 0, 0)] + ([(1, 1, 1, 1)] if th else []) + ([(2, 2, 1, 1), (3, 3, 1, 0)] if big else [])
     for (cw, cht, xb, yb) in seps:
         for rep in (0, 1, 2, 3):
@@ -179,36 +195,47 @@ A_FP_SHIFT = ("fastpath.sepconv.*: --no-undefined-shift-check: (vx >> s) << s wi
               "known finding C08 finding.sepconv.negative_shift in pixman-bits-image.c)")
 A_FP_FLAGS = ("fastpath.*.table.*: the image flags handed to _pixman_implementation_iter_init are those of a BITS image without alpha map and accessors "
               "under a general affine transform (no ID/SCALE/ROTATE/X_UNIT_POSITIVE/Y_UNIT_ZERO/COVER_CLIP bit), filter and repeat bits as in the job name")
+A_FP_PAD = ("fastpath.bilinear.*.none_*: the image storage is preceded by one word of the same allocation (the worker forms row + bpp/8 * (-1) "
+            "before reading pixel [1]; with the image at the very start of an object that pointer is outside the object for CBMC: "
+            "job finding.fastpath.bilinear.none.row_pointer_before_allocation)")
 FP_KIND = {0: "nearest", 1: "bilinear", 2: "sepconv"}
 FP_FN = {0: "bits_image_fetch_nearest_affine", 1: "bits_image_fetch_bilinear_affine", 2: "bits_image_fetch_separable_convolution_affine"}
 FP_FMTS = ("a8r8g8b8", "x8r8g8b8", "a8", "r5g6b5")
 FP_CALL = {0: "worker", 1: "instance", 2: "table"}
+FP_COVER_W = ((0, 0),)          # weight pairs of the cover-iterator jobs (see the note in fastpath_jobs)
 
 
-def fp_affine_job(kind, rep, fmt, call, w=2, cw=2, cht=1, timeout=900):
+def fp_affine_job(kind, rep, fmt, call, w=None, cw=2, cht=1, timeout=None, pad=None, name=None, extra=None):
+    # sepconv: the symbolic 16.16 products make the SAT query ~40x dearer than nearest/bilinear: width 1 there
+    w = w if w is not None else (1 if kind == 2 else 2)
     d = {"VC_KIND": kind, "VC_REP": rep, "VC_FMT": fmt, "VC_CALL": call, "VC_W": w}
     flags = []
     asm = [A_FP_T3D, A_FP_RANGE]
-    name = "fastpath.%s.%s.%s_%s" % (FP_KIND[kind], FP_CALL[call], REPN[rep], fmt)
+    name = name or "fastpath.%s.%s.%s_%s" % (FP_KIND[kind], FP_CALL[call], REPN[rep], fmt)
     fns = [FP_FN[kind], FP_FN[kind] + "_%s_%s" % (REPN[rep], fmt), "convert_" + fmt, "repeat"]
     bound = "4x3 source, scanline width %d, positions within +-10 pixels" % w
     if kind == 1:
         d["VC_BLENDMODEL"] = 1
         asm.append(A_FP_BLEND)
+        if rep == 0:
+            d["VC_PAD"] = 1 if pad is None else pad
+            if d["VC_PAD"]:
+                asm.append(A_FP_PAD)
     if kind == 2:
         d["VC_CW"], d["VC_CHT"] = cw, cht
         flags.append("--no-undefined-shift-check")
         asm.append(A_FP_SHIFT)
         name += ".k%dx%d" % (cw, cht)
         bound += "; kernel %dx%d, 0 subsample bits, one-hot weights" % (cw, cht)
+    d.update(extra or {})
     if call == 2:
         flags += ["--unwindset", "_pixman_implementation_iter_init.0:64,_pixman_implementation_iter_init.1:64,memcmp.0:72"]
         asm.append(A_FP_FLAGS)
         fns += ["fast_iters[]", "_pixman_implementation_iter_init"]
-    return Job(name, "C08/fp_affine.c", defines=d, unwind=8, cbmc_flags=flags,
+    return Job(name, "C08/fp_affine.c", defines=d, unwind=8, cbmc_flags=flags, object_bits=10,
                extra_sources=["harness/C19/replay_link.c"], kind="bounded", bound=bound, functions=fns,
                domain="every stored bit of the source, every v and (ux,uy) in range, with/without mask, transform verdict, ghost pixel index",
-               timeout=timeout, min_props=6, assumptions=asm)
+               timeout=timeout or (2400 if kind == 2 else 900), min_props=6, assumptions=asm)
 
 
 def fastpath_jobs(tier):
@@ -222,15 +249,45 @@ def fastpath_jobs(tier):
             for rep in (0, 1, 2, 3):
                 for fmt in FP_FMTS:
                     combos.append((kind, rep, fmt, 2))
-                    combos.append((kind, rep, fmt, 1))
+                    if kind != 2:       # (sepconv: 1.5-4 min of solver time each; the table route runs the instance anyway)
+                        combos.append((kind, rep, fmt, 1))
     else:
-        # quick: every filter x every repeat mode and every format at least once through the table; two instances directly
+        # quick: every filter, every repeat mode and every format at least once through the table; two instances directly
         combos = [(0, 0, "r5g6b5", 2), (0, 1, "a8", 2), (0, 2, "x8r8g8b8", 2), (0, 3, "a8r8g8b8", 2),
                   (1, 0, "x8r8g8b8", 2), (1, 1, "a8r8g8b8", 2), (1, 2, "a8", 2), (1, 3, "r5g6b5", 2),
-                  (2, 0, "a8", 2), (2, 2, "r5g6b5", 2), (2, 3, "x8r8g8b8", 2),
+                  (2, 0, "a8", 2),          # (sepconv: ~90 s of solver time for NONE/a8, ~200 s for REFLECT/r5g6b5: the cheap one here)
                   (0, 2, "r5g6b5", 1), (1, 0, "a8r8g8b8", 1)]
     for kind, rep, fmt, call in combos:
         js.append(fp_affine_job(kind, rep, fmt, call))
+    # r5g6b5 scanline iterators (fast_iters[] entries 0..2): fetch and write back against the field table of the format name
+    for case, nm, fn in ((0, "fetch", "fast_fetch_r5g6b5"), (1, "write_back", "fast_write_back_r5g6b5")):
+        js.append(Job("fastpath.r5g6b5.%s" % nm, "C08/fp_565.c", defines={"VC_CASE": case, "VC_WMAX": 7}, unwind=12,
+                      extra_sources=["harness/C19/replay_link.c"], kind="bounded",
+                      bound="scanline width <= 7 (the 2- and 4-pixel loops unwound), two lines of 10 pixels",
+                      functions=[fn, "convert_0565_to_8888", "convert_8888_to_0565_workaround"],
+                      domain="every stored bit / every buffer word, every width 0..7, 4-byte aligned and unaligned start, either line, ghost pixel",
+                      timeout=600, min_props=4))
+    # bilinear "cover" iterator (fast_bilinear_cover_iter_init / fast_fetch_bilinear_cover): obtained through fast_iters[];
+    # precondition = meaning of SAMPLES_COVER_CLIP_BILINEAR.  One channel and one weight pair (of the first sample) per query.
+    cov = [(0, 0, 0), (0, 0, 3)] if not th else [(wx, wy, ch) for (wx, wy) in FP_COVER_W for ch in (0, 1, 2, 3)]
+    for wx, wy, ch in cov:
+        js.append(Job("fastpath.cover.w%d_%d.ch%d" % (wx, wy, ch), "C08/fp_cover.c",
+                      defines={"VC_W": 1, "VC_WX": wx, "VC_WY": wy, "VC_CH": ch}, unwind=8, object_bits=10,
+                      cbmc_flags=["--unwindset", "_pixman_implementation_iter_init.0:64,_pixman_implementation_iter_init.1:64,memcmp.0:72"],
+                      extra_sources=["harness/C19/replay_link.c"], kind="bounded",
+                      bound="4x4 source, scanline width 1, two consecutive scanlines, whole-pixel steps, weight pair of every sample fixed to (%d,%d), channel %d" % (wx, wy, ch),
+                      functions=["fast_bilinear_cover_iter_init", "fast_fetch_bilinear_cover", "fetch_horizontal", "bilinear_cover_iter_fini",
+                                 "fast_iters[]", "_pixman_implementation_iter_init"],
+                      domain="every source content, every v with that weight pair and every scale (sx, sy) such that the four neighbours of every sample are inside the image",
+                      timeout=1200, min_props=4,
+                      assumptions=[A_FP_T3D, "fastpath.cover.*: precondition = FAST_PATH_SAMPLES_COVER_CLIP_BILINEAR as pixman.c analyze_extent defines it: "
+                                   "floor (X - 1/2) >= 0 and floor (X + 1/2) < width for every sample (same for Y); |sx|, |sy| < 8.0",
+                                   "fastpath.cover.*: image flags handed to _pixman_implementation_iter_init: a8r8g8b8 BITS image, no alpha map/accessors, "
+                                   "SCALE transform, BILINEAR filter, NONE repeat, COVER_CLIP_BILINEAR"]))
+    # the NONE-repeat bilinear worker offsets the row pointer by x1 == -1 pixels before reading pixel [1]: for row 0 of an image
+    # that starts its allocation this is a pointer before the object (ISO C: undefined; the byte finally read is inside) — own job
+    js.append(fp_affine_job(1, 0, "a8r8g8b8", 1, pad=0, extra={"VC_NOCHECK": 1},
+                            name="finding.fastpath.bilinear.none.row_pointer_before_allocation"))
     return js
 
 
@@ -306,6 +363,9 @@ META = {
         "spec/spec_sample.h: sample positions, weights, kernel alignment and repeat maps as written from rounding.txt and the property text",
         "harness/C08/c08.h: ghost image (free points + default) standing for an arbitrary a8r8g8b8 image behind fetch_pixel_32",
         "uninterpreted-function abstraction (CBMC __CPROVER_uninterpreted_*) of repeat() [NORMAL/REFLECT] and bilinear_interpolation() inside the fetcher queries",
+        "spec/spec_format.h (field tables of the format names, little-endian raw pixel layout) for the source pixels of the fastpath.* jobs",
+        "fastpath.*.table.* / fastpath.cover.*: the image-flag words handed to _pixman_implementation_iter_init are written by hand in the harness "
+        "(what compute_image_info / analyze_extent produce is C09/C14 territory)",
     ],
     "assumptions": [
         "proof level is claimed for: repeat NONE/PAD (full domain), repeat NORMAL range+termination (loop contracts), bilinear weight, "
@@ -318,12 +378,18 @@ META = {
     "not_covered": [
         "macro-generated scaled nearest/bilinear main loops (FAST_NEAREST_MAINLOOP*, FAST_BILINEAR_MAINLOOP*) of pixman-inlines.h / pixman-fast-path.c",
         "SSE2 / SSSE3 scaled and affine fetchers (pixman-sse2.c, pixman-ssse3.c)",
-        "pixman-fast-path.c bits_image_fetch_{nearest,bilinear,separable_convolution}_affine_* and fast_fetch/cover iterators",
-        "pad_repeat_get_scanline_bounds (not reached in the time budget)",
+        "pixman-fast-path.c bits_image_fetch_bilinear_no_repeat_8888 (the X_UNIT_POSITIVE / Y_UNIT_ZERO NONE-repeat bilinear scanline fetcher)",
+        "pixman-fast-path.c affine fetchers: bounded to a 4x3 source, scanline width <= 2 (sepconv: 1), positions within +-10 pixels; "
+        "sepconv instances only with a 2x1 one-hot kernel and 0 subsample bits (phase tables of the fast-path fetcher: fastpath.sepconv.window.* only)",
+        "fast_fetch_bilinear_cover: only the weight pair (0,0) of the first sample finishes (pixel index / stepping / line cache / memory safety under "
+        "COVER_CLIP_BILINEAR); the two-pass 64-bit-lane interpolation with non-zero weights did not finish in 400 s even with one channel, width 1 "
+        "and the weights built as constants: its arithmetic is NOT verified",
+        "r5g6b5 iterators: width <= 7",
         "float (wide) fetchers: bits_image_fetch_pixel_bilinear_float, accum_float/reduce_float",
         "fetch_pixel_general_32 alpha-map branch; __bits_image_fetch_general stepping of w beyond the first pixel in the quick tier",
-        "convolution kernels larger than 1x1 in the default tiers (2x2/3x3 jobs exist behind VERIF_C08_BIGKERNEL=1 but did not finish in 17 min): "
-        "tap order / stride of the kernel matrix is therefore only covered through the 1x1 alignment obligations",
+        "convolution kernels larger than 1x1 with SYMBOLIC weights (2x2/3x3 jobs exist behind VERIF_C08_BIGKERNEL=1 but did not finish in 17 min); "
+        "window alignment, tap order and matrix stride of kernels up to 4x4 are covered with one-hot weights (conv.onehot.*), the weighted sum itself "
+        "only for 1x1 kernels",
         "pixman_transform_point_3d itself (C11)",
     ],
 }
